@@ -1,0 +1,161 @@
+//go:build verif
+
+// Contracts for package treebidimap (comment-only; read by /verif/engine, never compiled into the package).
+
+package treebidimap
+
+//@ -- forwardMap / inverseMap are red-black trees embedded by value; m.forwardMap denotes a pointer to the embedded tree
+//@ pred Fwd(m, k) := redblacktree.Has(m.forwardMap, k)
+//@ pred FwdVal(m, k) := redblacktree.Val(m.forwardMap, k)
+//@ pred Bwd(m, v) := redblacktree.Has(m.inverseMap, v)
+//@ pred BwdVal(m, v) := redblacktree.Val(m.inverseMap, v)
+//@ pred KC(m, a, b) := m.forwardMap.Comparator(a, b)
+//@ pred VC(m, a, b) := m.inverseMap.Comparator(a, b)
+//@ -- Bij: the two trees are mutual inverses up to the two comparators' equivalences (C10), with the same number of pairs
+//@ pred Bij(m) := (forall k like argof(m.forwardMap.Comparator, 0) :: Fwd(m, k) ==> Bwd(m, FwdVal(m, k)) && KC(m, BwdVal(m, FwdVal(m, k)), k) == 0)
+//@     && (forall v like argof(m.inverseMap.Comparator, 0) :: Bwd(m, v) ==> Fwd(m, BwdVal(m, v)) && VC(m, FwdVal(m, BwdVal(m, v)), v) == 0)
+//@     && m.forwardMap.size == m.inverseMap.size
+//@ pred Inv(m) := m != nil && redblacktree.Inv(m.forwardMap) && redblacktree.Inv(m.inverseMap) && Bij(m)
+//@ pred Config(m) := m.forwardMap.Comparator == old(m.forwardMap.Comparator) && m.inverseMap.Comparator == old(m.inverseMap.Comparator)
+
+//@ func NewWith
+//@   requires keyComparator != nil && redblacktree.SWO(keyComparator, argof(keyComparator, 0)) && valueComparator != nil && redblacktree.SWO(valueComparator, argof(valueComparator, 0))
+//@   modifies nothing
+//@   ensures [C10 C15 C17] fresh(result) && Inv(result) && result.forwardMap.size == 0 && result.forwardMap.Comparator == keyComparator && result.inverseMap.Comparator == valueComparator
+
+//@ -- Put: contract stated but NOT yet verified (the four obligations re-establishing Bij through two Removes and two Puts,
+//@ -- up to both comparators' equivalences, exceed the solver budget); trusted, outside the C10 claim for TreeBidiMap.Put
+//@ func Map.Put
+//@   trusted
+//@   requires Inv(m)
+//@   modifies m.forwardMap.Root, m.forwardMap.size, m.forwardMap.n, m.forwardMap.nodes, m.forwardMap.rank
+//@   modifies each x like m.forwardMap.Root where x.tr == m.forwardMap : x.Left, x.Right, x.Parent, x.a, x.b, x.color, x.Key, x.Value, x.pos, x.tr
+//@   modifies m.inverseMap.Root, m.inverseMap.size, m.inverseMap.n, m.inverseMap.nodes, m.inverseMap.rank
+//@   modifies each x like m.inverseMap.Root where x.tr == m.inverseMap : x.Left, x.Right, x.Parent, x.a, x.b, x.color, x.Key, x.Value, x.pos, x.tr
+//@   ensures [C01 C10 C17] Inv(m) && Config(m) && Fwd(m, key) && VC(m, FwdVal(m, key), value) == 0 && Bwd(m, value) && KC(m, BwdVal(m, value), key) == 0
+//@   ensures [C01 C10] others: forall k like key :: KC(m, k, key) != 0 ==> (Fwd(m, k) <==> old(Fwd(m, k)) && VC(m, old(FwdVal(m, k)), value) != 0) && (Fwd(m, k) ==> FwdVal(m, k) == old(FwdVal(m, k)))
+
+//@ func Map.Get
+//@   requires Inv(m)
+//@   modifies nothing
+//@   ensures [C01 C10 C17 C18] found == Fwd(m, key) && (found ==> value == FwdVal(m, key)) && (!found ==> value == zero(value))
+//@   ensures [C10] found ==> Bwd(m, value) && KC(m, BwdVal(m, value), key) == 0
+
+//@ func Map.GetKey
+//@   requires Inv(m)
+//@   modifies nothing
+//@   ensures [C10 C17 C18] found == Bwd(m, value) && (found ==> key == BwdVal(m, value)) && (!found ==> key == zero(key))
+//@   ensures [C10] found ==> Fwd(m, key) && VC(m, FwdVal(m, key), value) == 0
+
+//@ func Map.Remove
+//@   requires Inv(m)
+//@   modifies m.forwardMap.Root, m.forwardMap.size, m.forwardMap.n, m.forwardMap.nodes, m.forwardMap.rank
+//@   modifies each x like m.forwardMap.Root where x.tr == m.forwardMap : x.Left, x.Right, x.Parent, x.a, x.b, x.color, x.Key, x.Value, x.pos, x.tr
+//@   modifies m.inverseMap.Root, m.inverseMap.size, m.inverseMap.n, m.inverseMap.nodes, m.inverseMap.rank
+//@   modifies each x like m.inverseMap.Root where x.tr == m.inverseMap : x.Left, x.Right, x.Parent, x.a, x.b, x.color, x.Key, x.Value, x.pos, x.tr
+//@   ensures [C01 C10 C17] Inv(m) && Config(m) && !Fwd(m, key)
+//@   ensures [C01 C10] forall k like key :: KC(m, k, key) != 0 ==> (Fwd(m, k) <==> old(Fwd(m, k))) && (Fwd(m, k) ==> FwdVal(m, k) == old(FwdVal(m, k)))
+//@   ensures [C10] old(Fwd(m, key)) ==> !Bwd(m, old(FwdVal(m, key)))
+
+//@ func Map.Empty
+//@   requires Inv(m)
+//@   modifies nothing
+//@   ensures [C15 C17 C18] result == (m.forwardMap.size == 0)
+
+//@ func Map.Size
+//@   requires Inv(m)
+//@   modifies nothing
+//@   ensures [C10 C15 C17 C18] result == m.forwardMap.size && result == m.inverseMap.size && result >= 0
+
+//@ func Map.Keys
+//@   requires Inv(m)
+//@   modifies nothing
+//@   ensures [C02 C10 C15 C16 C17 C18] fresh(arr(result)) && len(result) == m.forwardMap.size && (forall j :: 0 <= j && j < len(result) ==> result[j] == redblacktree.KeyAt(m.forwardMap, j))
+
+//@ func Map.Values
+//@   requires Inv(m)
+//@   modifies nothing
+//@   ensures [C02 C10 C15 C16 C17 C18] fresh(arr(result)) && len(result) == m.forwardMap.size && (forall j :: 0 <= j && j < len(result) ==> result[j] == redblacktree.KeyAt(m.inverseMap, j))
+
+//@ func Map.Clear
+//@   requires Inv(m)
+//@   modifies m.forwardMap.Root, m.forwardMap.size, m.forwardMap.n, m.inverseMap.Root, m.inverseMap.size, m.inverseMap.n
+//@   modifies each x like m.forwardMap.Root where x.tr == m.forwardMap : x.tr
+//@   modifies each x like m.inverseMap.Root where x.tr == m.inverseMap : x.tr
+//@   ensures [C10 C15 C17] Inv(m) && Config(m) && m.forwardMap.size == 0
+
+// ---- iterator: delegates to the red-black tree iterator (C08) ----
+
+//@ pred ItInv(it) := it != nil && redblacktree.ItInv(it.iterator)
+//@ pred Cur(it) := redblacktree.Cur(it.iterator)
+
+//@ func Map.Iterator
+//@   requires Inv(m)
+//@   modifies nothing
+//@   ensures [C08 C17 C18] fresh(result) && ItInv(result) && fresh(result.iterator) && result.iterator.tree == m.forwardMap && Cur(result) == 0 - 1
+
+//@ func Iterator.Next
+//@   requires ItInv(iterator)
+//@   modifies iterator.iterator.node, iterator.iterator.position
+//@   ensures [C08 C17] ItInv(iterator) && Cur(iterator) == min(old(Cur(iterator)) + 1, iterator.iterator.tree.size)
+//@   ensures [C08] result == (0 <= Cur(iterator) && Cur(iterator) < iterator.iterator.tree.size)
+
+//@ func Iterator.Prev
+//@   requires ItInv(iterator)
+//@   modifies iterator.iterator.node, iterator.iterator.position
+//@   ensures [C08 C17] ItInv(iterator) && Cur(iterator) == max(old(Cur(iterator)) - 1, 0 - 1)
+//@   ensures [C08] result == (0 <= Cur(iterator) && Cur(iterator) < iterator.iterator.tree.size)
+
+//@ func Iterator.Key
+//@   requires ItInv(iterator) && iterator.iterator.position == 1
+//@   modifies nothing
+//@   ensures [C08 C17 C18] result == redblacktree.KeyAt(iterator.iterator.tree, Cur(iterator))
+
+//@ func Iterator.Value
+//@   requires ItInv(iterator) && iterator.iterator.position == 1
+//@   modifies nothing
+//@   ensures [C08 C17 C18] result == redblacktree.ValAt(iterator.iterator.tree, Cur(iterator))
+
+//@ func Iterator.Begin
+//@   requires ItInv(iterator)
+//@   modifies iterator.iterator.node, iterator.iterator.position
+//@   ensures [C08 C17] ItInv(iterator) && Cur(iterator) == 0 - 1
+
+//@ func Iterator.End
+//@   requires ItInv(iterator)
+//@   modifies iterator.iterator.node, iterator.iterator.position
+//@   ensures [C08 C17] ItInv(iterator) && Cur(iterator) == iterator.iterator.tree.size
+
+//@ func Iterator.First
+//@   requires ItInv(iterator)
+//@   modifies iterator.iterator.node, iterator.iterator.position
+//@   ensures [C08 C17] ItInv(iterator) && Cur(iterator) == 0 && result == (iterator.iterator.tree.size > 0)
+
+//@ func Iterator.Last
+//@   requires ItInv(iterator)
+//@   modifies iterator.iterator.node, iterator.iterator.position
+//@   ensures [C08 C17] ItInv(iterator) && Cur(iterator) == iterator.iterator.tree.size - 1 && result == (iterator.iterator.tree.size > 0)
+
+//@ func Iterator.NextTo
+//@   requires ItInv(iterator) && f != nil
+//@   modifies iterator.iterator.node, iterator.iterator.position
+//@   ensures [C08 C17] ItInv(iterator)
+//@   ensures [C08] found: result ==> old(Cur(iterator)) < Cur(iterator) && Cur(iterator) < iterator.iterator.tree.size && f(redblacktree.KeyAt(iterator.iterator.tree, Cur(iterator)), redblacktree.ValAt(iterator.iterator.tree, Cur(iterator)))
+//@     && (forall j :: old(Cur(iterator)) < j && j < Cur(iterator) ==> !f(redblacktree.KeyAt(iterator.iterator.tree, j), redblacktree.ValAt(iterator.iterator.tree, j)))
+//@   ensures [C08] notfound: !result ==> Cur(iterator) == iterator.iterator.tree.size && (forall j :: old(Cur(iterator)) < j && j < iterator.iterator.tree.size ==> !f(redblacktree.KeyAt(iterator.iterator.tree, j), redblacktree.ValAt(iterator.iterator.tree, j)))
+//@   loop 1:
+//@     invariant ItInv(iterator) && old(Cur(iterator)) <= Cur(iterator)
+//@     invariant forall j :: old(Cur(iterator)) < j && j <= Cur(iterator) && j < iterator.iterator.tree.size ==> !f(redblacktree.KeyAt(iterator.iterator.tree, j), redblacktree.ValAt(iterator.iterator.tree, j))
+//@     decreases iterator.iterator.tree.size - Cur(iterator)
+
+//@ func Iterator.PrevTo
+//@   requires ItInv(iterator) && f != nil
+//@   modifies iterator.iterator.node, iterator.iterator.position
+//@   ensures [C08 C17] ItInv(iterator)
+//@   ensures [C08] found: result ==> 0 <= Cur(iterator) && Cur(iterator) < old(Cur(iterator)) && f(redblacktree.KeyAt(iterator.iterator.tree, Cur(iterator)), redblacktree.ValAt(iterator.iterator.tree, Cur(iterator)))
+//@     && (forall j :: Cur(iterator) < j && j < old(Cur(iterator)) ==> !f(redblacktree.KeyAt(iterator.iterator.tree, j), redblacktree.ValAt(iterator.iterator.tree, j)))
+//@   ensures [C08] notfound: !result ==> Cur(iterator) == 0 - 1 && (forall j :: 0 <= j && j < old(Cur(iterator)) ==> !f(redblacktree.KeyAt(iterator.iterator.tree, j), redblacktree.ValAt(iterator.iterator.tree, j)))
+//@   loop 1:
+//@     invariant ItInv(iterator) && Cur(iterator) <= old(Cur(iterator))
+//@     invariant forall j :: Cur(iterator) <= j && j < old(Cur(iterator)) && 0 <= j ==> !f(redblacktree.KeyAt(iterator.iterator.tree, j), redblacktree.ValAt(iterator.iterator.tree, j))
+//@     decreases Cur(iterator) + 1
